@@ -282,6 +282,8 @@ def run_path(case: Case, prefix, solver, pending, opts, profile=False):
         elif out["status"] == "ok":
             for ob in obs:
                 _discharge(case, c, ob, out, opts)
+                if out["status"] == "error":
+                    break
     except HarnessError as ex:
         out["status"] = "error"
         out["errors"].append(f"{type(ex).__name__}: {ex}\n{traceback.format_exc()[-2500:]}")
@@ -349,11 +351,17 @@ def _discharge(case, c, ob: Ob, out, opts):
             raise HarnessError(f"obligation {ob.name}: condition of type {type(cond)}")
     else:
         neg = z3.Not(core.zbool(cond))
-        wit = _witness_by_evaluation(c, neg, opts.get("seed", 0))
+        wit = None
+        if ob.expect == "sat":
+            wit = _witness_by_evaluation(c, neg, opts.get("seed", 0))
         if wit is not None:
             verdict, how = "sat", "witness-by-evaluation"
         else:
             verdict, _m, how = _final_check(c, neg, opts["timeout_ms"])
+            if verdict == "unknown":
+                wit = _witness_by_evaluation(c, neg, opts.get("seed", 0), tries=200)
+                if wit is not None:
+                    verdict, how = "sat", "witness-by-evaluation"
     rec.update(verdict=verdict, how=how, seconds=round(time.time() - t0, 4))
     out["obligations"].append(rec)
     if ob.expect == "sat":
